@@ -39,6 +39,14 @@ CHECKS = {
         text="Lean proof, for every preamble, every well-formed stream (fillers free of the preamble's first byte, messages with arbitrary payload) and EVERY list of chunks whose concatenation is the stream, that the modelled IConnection delivers exactly the messages, once, in order, byte-exact, and returns to its initial state (C14_reassembly, C14_chunking_independent, C14_prefix, via the single-chunk step theorem proved by strong induction on the chunk length following the code's branches); a state invariant for arbitrary input bounds every buffer index (C14_state_invariant, C14_header_read_in_bounds); tied to the code by running the compiled IConnection.cpp (ASan+UBSan build and _GLIBCXX_ASSERTIONS build) and the model on the same chunk lists, exhaustively over all cut subsets of short streams.",
         ref="DESIGN.md 6/C14, Appendix B", technique="Lean 4 proof (invariant + strong induction over chunk length, all chunkings) + compiled-probe correspondence with sanitizers",
         note="Domain: bytes < 256, message length < 2^32 (uint32 wrap-around excluded), non-ARM build. Memory safety of the C++ itself is supported by sanitizer runs, not proved against the C++ abstract machine."),
+    "C12": dict(
+        text="Lean proof that the default-argument text rendered by the generator, fed through C++ aggregate initialisation, yields the declared default (zero where none) at ANY nesting depth (init_render, mutual structural induction), that every factory result is header{preamble,id,size-8}+defaults and a well-formed message for the connection layer (C12_factory_defaults_any_depth, C12_factory_header, C12_factory_type_id), that arguments land in the member of the same position/name (C12_factory_args_by_name) and that packed offsets are prefix sums (C12_offsets_declaration_order, C12_size_is_sum); tied to the code by compiling the generated headers of random interfaces with g++ and clang++ and comparing sizeof/offsetof/factory bytes with the model and with an independent Python packing.",
+        ref="DESIGN.md 6/C12", technique="Lean 4 proof (mutual structural induction over nested structs, byte arithmetic) + compiled-probe correspondence",
+        note="'Compiles for every interface' is decided per sampled interface by the compilers (partial: not a theorem). Compiler ABI (packed, little endian, IEEE) trusted. Domain: no empty structs, ids/preamble < 2^16."),
+    "C13": dict(
+        text="Lean proof composing three models: the generated switch dispatches a message to exactly the handler of its type id and undefined ids only to the not-handled hook (C13_dispatch_exact, C13_undefined_id_not_handled, C13_factory_dispatch), any back-to-back sequence of well-formed messages re-chunked arbitrarily is delivered once, in order, byte-identical (C13_roundtrip_any_chunking, from C14_reassembly), and the retry loop succeeds iff an attempt within retries+1 is accepted, never sends after an accepted attempt, sends nothing for negative retries (C13_retry_success_iff, C13_retry_calls, C13_retry_negative); tied to the code by a compiled loop-back probe over generated transmitter/receiver and IConnection.cpp.",
+        ref="DESIGN.md 6/C13", technique="Lean 4 proof (composition of C12/C14 models, induction over the retry loop) + compiled loop-back probe correspondence",
+        note="Same trusted base as C12/C14; int8 retry counter range; the user-supplied Preamble() override of the receiver is part of the probe."),
 }
 PENDING = {}
 
